@@ -92,7 +92,7 @@ def runWOps (id : Nat) (isLast : Bool) : List WOp → WState → WFlow
      | none => .ret (.panic "slice")
      | some inner =>
        let t := String.ofList (if trim then trimSpace inner else inner)
-       runWOps id isLast r { s with idx := if lower then t.toLower else t })
+       runWOps id isLast r { s with idx := if lower then lowerS t else t })
   | .cutName :: r, s =>
     (match goSlice s.seg 0 s.openI with
      | none => .ret (.panic "slice")
